@@ -5,6 +5,7 @@ from fractions import Fraction
 
 import numpy as _np
 
+from .sym import np_log as _sym_np_log
 from .sym import (Sym, SymBool, is_sym, s_exp, s_log, s_sqrt, s_cos, s_fabs, sym_pow, s_max, s_min,
                   Unsupported, ctx, PI, _CTX, trunc)
 from . import sym as _sym
@@ -54,7 +55,7 @@ class NpShim:
     def __init__(self):
         self.nan = _np.nan
         self.inf = _np.inf
-        self.log = _elementwise(s_log, _np.log)
+        self.log = _elementwise(_sym_np_log, _np.log)
         self.exp = _elementwise(s_exp, _np.exp)
         self.sqrt = _elementwise(s_sqrt, _np.sqrt)
         self.cos = _elementwise(s_cos, _np.cos)
